@@ -9,7 +9,7 @@
 # limitations under the License.
 
 from collections.abc import Mapping
-from typing import Union
+from typing import Any, Union
 
 from qiskit import transpile
 from qiskit.circuit import QuantumCircuit as QiskitQuantumCircuit
@@ -96,20 +96,25 @@ def circuit_from_qiskit(
         )
         qiskit_circuit = transpile(qiskit_circuit, basis_gates=allowed_gates)
 
+    def qindex(bit: Any) -> int:
+        # Position in the whole circuit: the private index attribute of a bit is
+        # only its position inside its own register.
+        return int(qiskit_circuit.find_bit(bit).index)
+
     for instruction, q, r in qiskit_circuit:
         gname = instruction.name
         if gname in _single_qubit_gate_qiskit_quri_parts:
             circuit.add_gate(
                 QuantumGate(
                     name=_single_qubit_gate_qiskit_quri_parts[gname],
-                    target_indices=(q[0]._index,),
+                    target_indices=(qindex(q[0]),),
                 )
             )
         elif gname in _single_qubit_rotation_gate_qiskit_quri_parts:
             circuit.add_gate(
                 QuantumGate(
                     name=_single_qubit_rotation_gate_qiskit_quri_parts[gname],
-                    target_indices=(q[0]._index,),
+                    target_indices=(qindex(q[0]),),
                     params=(instruction.params[0],),
                 )
             )
@@ -117,7 +122,7 @@ def circuit_from_qiskit(
             circuit.add_gate(
                 QuantumGate(
                     name=_U_gate_qiskit_quri_parts[gname],
-                    target_indices=(q[0]._index,),
+                    target_indices=(qindex(q[0]),),
                     params=(*instruction.params,),
                 )
             )
@@ -125,8 +130,8 @@ def circuit_from_qiskit(
             circuit.add_gate(
                 QuantumGate(
                     name=_two_qubit_gate_qiskit_quri_parts[gname],
-                    target_indices=(q[1]._index,),
-                    control_indices=(q[0]._index,),
+                    target_indices=(qindex(q[1]),),
+                    control_indices=(qindex(q[0]),),
                 )
             )
         elif gname in ["ecr", "swap"]:
@@ -134,8 +139,8 @@ def circuit_from_qiskit(
                 QuantumGate(
                     name=_two_qubit_gate_qiskit_quri_parts[gname],
                     target_indices=(
-                        q[0]._index,
-                        q[1]._index,
+                        qindex(q[0]),
+                        qindex(q[1]),
                     ),
                 )
             )
@@ -143,22 +148,22 @@ def circuit_from_qiskit(
             circuit.add_gate(
                 QuantumGate(
                     name=_three_qubits_gate_quri_parts[gname],
-                    target_indices=(q[2]._index,),
+                    target_indices=(qindex(q[2]),),
                     control_indices=(
-                        q[0]._index,
-                        q[1]._index,
+                        qindex(q[0]),
+                        qindex(q[1]),
                     ),
                 )
             )
         elif gname == "measure":
             circuit.add_gate(
-                gates.Measurement([i._index for i in q], [i._index for i in r])
+                gates.Measurement([qindex(i) for i in q], [qindex(i) for i in r])
             )
         else:
             mat = instruction.to_matrix()
             circuit.add_gate(
                 UnitaryMatrix(
-                    target_indices=[i._index for i in q],
+                    target_indices=[qindex(i) for i in q],
                     unitary_matrix=mat,
                 )
             )
